@@ -1,3 +1,146 @@
-(* placeholder, replaced below *)
-From Verif Require Import Prelude Model.Chain.
-Example placeholder : True. Proof. exact I. Qed.
+(* C08 — Auto-design turns any well-formed topology into a complete line system.
+   Property theorems only; the proofs are in Proofs/Chain.v, the model in Model/Chain.v.
+
+   Model: a line between two ROADM / transceiver endpoints is a chain `list elem` (Fib | Fus | Amp);
+   `design_line c l` = split_fiber on every fibre, add_roadm_preamp / add_roadm_booster (in either order),
+   add_inline_amplifier, add_connector_loss, add_fiber_padding, as gnpy/core/network.py does them.
+   Vocabulary (Proofs/Chain.v):
+     no_auto els          no element of the input carries the "inserted by auto-design" mark
+     c_min c <= c_max c   max(padding/0.2 km, 50 km) <= max_length  (otherwise see the *_refuted theorems, finding F16)
+     erase els            els without the inserted amplifiers
+     tot_len / tot_ll     sum of the fibre lengths / of length x loss coefficient
+     runs els             the spans: maximal fibre/fused runs as prev_node_generator / next_node_generator delimit them
+     PairOk x y           junction rule for neighbours x -> y: no fibre-fibre, ROADM-fibre, fibre-ROADM junction; an
+                          inserted amplifier only touches fibres and ROADMs (none next to Fused / Transceiver)
+     RunPadded pad r      a span that starts with a fibre and ends with a non-Raman fibre, without Raman fibre,
+                          has loss >= pad *)
+From Verif Require Import Prelude Model.Chain Proofs.Chain.
+From Coq Require Import QArith Permutation Lia.
+Open Scope Z_scope.
+
+(* calculate_new_length, for every length and every configuration with target <= max_length *)
+Theorem C08_split_length : forall L mn mx tg len n,
+  0 < tg -> tg <= mx -> calc_len L mn mx tg = Ok (len, n) ->
+  1 <= n /\ (qz n * len == L)%Q /\ ((qz mx <= L)%Q -> (len <= qz mx)%Q) /\ ((L < qz mx)%Q -> n = 1 /\ len = L).
+Proof. exact calc_len_spec. Qed.
+Print Assumptions C08_split_length.
+
+(* split_fiber: equal spans with the original loss coefficient that together have the original length and
+   length x loss coefficient; at most max_length each; untouched below max_length *)
+Theorem C08_split_fibre : forall c f r, c_min c <= c_max c -> split_fib c f = Ok r ->
+  (tot_len r == f_len f)%Q /\ (tot_ll r == f_len f * f_lc f)%Q /\ r <> [] /\
+  (forall e, In e r -> exists g, e = Fib g /\ f_lc g = f_lc f /\ (qz (Z.of_nat (length r)) * f_len g == f_len f)%Q
+                                 /\ ((qz (c_max c) <= f_len f)%Q -> (f_len g <= qz (c_max c))%Q)) /\
+  ((f_len f < qz (c_max c))%Q -> r = [Fib f]).
+Proof.
+  intros c f r Hc H. destruct (split_fib_spec c f r Hc H) as [A B C D E]. repeat split; assumption.
+Qed.
+Print Assumptions C08_split_fibre.
+
+(* every fibre-fibre and ROADM-fibre junction has received an amplifier, none was inserted next to a Fused or a
+   Transceiver — for every line, every configuration, both orders of the booster / preamp passes *)
+Theorem C08_junctions : forall c l l', c_min c <= c_max c -> no_auto (l_els l) -> design_line c l = Ok l' ->
+  AdjAll PairOk (path (l_sk l) (l_dk l) (l_els l')).
+Proof. intros c l l' Hc Hn H. apply junctions_ok_iff. exact (d_junctions _ _ _ (design_line_spec c l l' Hc Hn H)). Qed.
+Print Assumptions C08_junctions.
+
+(* removing the inserted amplifiers gives back the split expansion of the input chain (same uids in the same
+   order, same total length and total length x loss coefficient as the input); endpoints are kept, hence
+   reachability between ROADMs / transceivers is unchanged *)
+Theorem C08_erase_amps : forall c l l', c_min c <= c_max c -> no_auto (l_els l) -> design_line c l = Ok l' ->
+  (l_sk l' = l_sk l /\ l_src l' = l_src l /\ l_dk l' = l_dk l /\ l_dst l' = l_dst l) /\
+  (exists s, split_chain c (l_els l) = Ok s /\ names (erase (l_els l')) = names s /\
+             (tot_len (erase (l_els l')) == tot_len (l_els l))%Q /\ (tot_ll (erase (l_els l')) == tot_ll (l_els l))%Q) /\
+  (tot_len (l_els l') == tot_len (l_els l))%Q /\ (tot_ll (l_els l') == tot_ll (l_els l))%Q.
+Proof.
+  intros c l l' Hc Hn H. destruct (design_line_spec c l l' Hc Hn H) as [E _ _ _ R [T1 T2] _]. repeat split; try apply E; assumption.
+Qed.
+Print Assumptions C08_erase_amps.
+
+(* uids after design = uids of the split chain + at most one booster uid + at most one preamp uid + one inline uid
+   per fibre-fibre junction, each exactly once: if those candidates are pairwise distinct the output uids are unique *)
+Theorem C08_names_unique : forall c l l', c_min c <= c_max c -> no_auto (l_els l) -> design_line c l = Ok l' ->
+  exists s extra, split_chain c (l_els l) = Ok s /\
+    Permutation (names (l_els l')) (names s ++ extra ++ inline_names s) /\
+    (forall n, In n extra -> n = bname l s \/ n = pname l s) /\ (length extra <= 2)%nat /\
+    (NoDup (names s ++ extra ++ inline_names s) -> NoDup (names (l_els l'))).
+Proof.
+  intros c l l' Hc Hn H. destruct (d_names _ _ _ (design_line_spec c l l' Hc Hn H)) as (s & extra & A & B & C & D).
+  exists s, extra. repeat split; auto. intro ND. eapply Permutation_NoDup; [apply Permutation_sym; exact B | exact ND].
+Qed.
+Print Assumptions C08_names_unique.
+
+(* every fibre has connector losses; every span that starts with a fibre and ends with a non-Raman fibre has at
+   least the padding loss *)
+Theorem C08_connectors_and_padding : forall c l l', c_min c <= c_max c -> no_auto (l_els l) -> design_line c l = Ok l' ->
+  Forall FibOk (l_els l') /\ Forall (RunPadded (c_pad c)) (runs (l_els l')).
+Proof.
+  intros c l l' Hc Hn H. destruct (design_line_spec c l l' Hc Hn H) as [_ _ F P _ _ _]. split.
+  - apply Forall_forall. intros e He. rewrite forallb_forall in F. specialize (F e He).
+    destruct e as [f|n lo|a]; cbn in *; auto. destruct (f_cin f), (f_cout f); try discriminate. split; eauto.
+  - apply padding_ok_iff. exact P.
+Qed.
+Print Assumptions C08_connectors_and_padding.
+
+(* add_fiber_padding changes nothing but att_in of the first element of a span, and only when that is a fibre *)
+Theorem C08_padding_first_fibre_only : forall c r r', pad_run c r = Ok r' ->
+  r' = r \/ exists g t, r = Fib g :: t /\ r' = bump (Fib g) (c_pad c - run_loss r) :: t /\ (run_loss r < c_pad c)%Q.
+Proof. exact pad_run_shape. Qed.
+Print Assumptions C08_padding_first_fibre_only.
+
+(* the validators applied to the implementation's designed network mean what they say *)
+Theorem C08_designed_ok_reflect : forall lib pm els,
+  designed_ok lib pm els = true <-> Forall (fun e => FibOk e /\ AmpOk lib pm e) els.
+Proof. exact designed_ok_iff. Qed.
+Print Assumptions C08_designed_ok_reflect.
+Theorem C08_junctions_ok_reflect : forall sk dk els, junctions_ok sk dk els = true <-> AdjAll PairOk (path sk dk els).
+Proof. exact junctions_ok_iff. Qed.
+Print Assumptions C08_junctions_ok_reflect.
+Theorem C08_padding_ok_reflect : forall pad els, padding_ok pad els = true <-> Forall (RunPadded pad) (runs els).
+Proof. exact padding_ok_iff. Qed.
+Print Assumptions C08_padding_ok_reflect.
+
+(* ---- where the faithful model does not satisfy the full-strength property (replayed on gnpy: findings) ---- *)
+(* F9: split_fiber copies the lumped losses into every sub-span ... *)
+Theorem C08_split_lumped_refuted : exists c f r,
+  split_fib c f = Ok r /\ (lumped_total r == 2 * lumped_total [Fib f])%Q /\ ~ (lumped_total [Fib f] == 0)%Q.
+Proof. exact split_lumped_refuted. Qed.
+Print Assumptions C08_split_lumped_refuted.
+(* ... or raises although the fibre itself is valid *)
+Theorem C08_split_lumped_raises : exists c f e, lumped_inside f (f_len f) = true /\ split_fib c f = Err e.
+Proof. exact split_lumped_raises. Qed.
+Print Assumptions C08_split_lumped_raises.
+(* F16: max(padding/0.2 km, 50 km) > max_length: division by zero, or spans longer than max_length *)
+Theorem C08_min_above_max_zero_division : exists c L e, c_max c < c_min c /\ (qz (c_max c) <= L)%Q /\
+  calc_len L (c_min c) (c_max c) (c_target c) = Err e.
+Proof. exact calc_len_zero_division. Qed.
+Print Assumptions C08_min_above_max_zero_division.
+Theorem C08_min_above_max_long_spans_refuted : exists c L len n, c_max c < c_min c /\
+  calc_len L (c_min c) (c_max c) (c_target c) = Ok (len, n) /\ (qz (c_max c) < len)%Q.
+Proof. exact calc_len_above_max_refuted. Qed.
+Print Assumptions C08_min_above_max_long_spans_refuted.
+(* F18: a Raman fibre at or above max_length is replaced by plain fibres *)
+Theorem C08_split_raman_lost : exists c f r, f_raman f = true /\ split_fib c f = Ok r /\
+  forallb (fun e => match e with Fib g => negb (f_raman g) | _ => false end) r = true /\ (2 <= length r)%nat.
+Proof. exact split_raman_lost. Qed.
+Print Assumptions C08_split_raman_lost.
+(* F17: a span between two amplifiers that ends (or starts) with a Fused is never padded *)
+Theorem C08_padding_fused_refuted : exists c l l' r,
+  design_line c l = Ok l' /\ In r (runs (l_els l')) /\ existsb is_amp r = false /\ has_raman r = false /\
+  (run_loss r < c_pad c)%Q /\ junctions_ok (l_sk l) (l_dk l) (l_els l') = true.
+Proof. exact padding_fused_refuted. Qed.
+Print Assumptions C08_padding_fused_refuted.
+(* F15: a Raman fibre inside a fused run that ends with a plain fibre: add_fiber_padding raises *)
+Theorem C08_raman_in_fused_run_raises : exists c l e, no_auto (l_els l) /\ design_line c l = Err e.
+Proof. exact pad_raman_raises. Qed.
+Print Assumptions C08_raman_in_fused_run_raises.
+
+(* ---- non-vacuity: a line with a fibre to split, a fused junction, a short fibre to pad, a user amplifier ---- *)
+Example C08_ex_hyps : c_min w_cfg <= c_max w_cfg /\ no_auto (l_els ex_line).
+Proof. exact ex_hyps. Qed.
+Example C08_ex_design : exists l', design_line w_cfg ex_line = Ok l' /\
+  names (l_els l') = ["Edfa_booster_A_to_f1_(1/2)"; "f1_(1/2)"; "Edfa_f1_(1/2)"; "f1_(2/2)"; "u"; "f2"; "Edfa_f2"; "f3"; "a"; "f4";
+                      "Edfa_preamp_B_from_f4"]%string.
+Proof. exact ex_design. Qed.
+Example C08_ex_split : calc_len (qz 200000) 50000 150000 90000 = Ok ((qz 200000 / qz 2)%Q, 2).
+Proof. vm_compute. reflexivity. Qed.
